@@ -101,6 +101,14 @@ class NDArr:
         return f'<ndarray {self.store} {self.view}>'
 
 
+class DArr(NDArr):
+    """abstract xarray.DataArray: like an ndarray (same storage model) plus .data/.loc/.copy/.sel"""
+
+    def __init__(self, store, view='whole', dtype=None, pred=None, attrs=None):
+        super().__init__(store, view, dtype, pred)
+        self.attrs = attrs if attrs is not None else {}
+
+
 class Vec(list):
     """small numpy array of concrete length holding scalar values (np.zeros(3), np.array([a,b,c])):
     element-wise arithmetic / comparison, in-place element update"""
@@ -160,6 +168,8 @@ def R(x):
     if isinstance(x, int):
         return z3.IntVal(x)
     if isinstance(x, float):
+        if x != x or x in (float('inf'), float('-inf')):
+            raise Unsupported(f'non-finite float {x} in symbolic arithmetic')
         return z3.RealVal(repr(x))
     return x
 
@@ -444,7 +454,7 @@ class Interp:
             return self.arr_op(type(op).__name__, a, b, node)
         if isinstance(a, Opaque) or isinstance(b, Opaque):
             return Opaque('binop', [x for x in (a, b) if isinstance(x, Opaque)])
-        conc = lambda x: isinstance(x, (int, float, str, list, tuple, bool)) and not is_sym(x)
+        conc = lambda x: isinstance(x, (int, float, complex, str, list, tuple, bool)) and not is_sym(x)
         if conc(a) and conc(b):
             try:
                 return {ast.Add: lambda: a + b, ast.Sub: lambda: a - b, ast.Mult: lambda: a * b,
@@ -454,6 +464,8 @@ class Interp:
                 raise _Raise(ExcVal('ZeroDivisionError'))
         if isinstance(a, str) and isinstance(op, ast.Mod):
             return Opaque('str')
+        if isinstance(a, complex) or isinstance(b, complex) or any(isinstance(x, float) and (x != x or abs(x) == float('inf')) for x in (a, b)):
+            return Opaque('nonreal-arithmetic')
         if isinstance(a, (str, list, tuple)) or isinstance(b, (str, list, tuple)):
             return Opaque('seqop')
         a, b = num_pair(a, b)
@@ -480,9 +492,11 @@ class Interp:
             raise Unsupported('// or % on reals')
         if isinstance(op, ast.Pow):
             bs = z3.simplify(b)
-            if z3.is_int_value(bs) and 0 <= bs.as_long() <= 8:
+            kexp = bs.as_long() if z3.is_int_value(bs) else (
+                int(bs.as_fraction()) if z3.is_rational_value(bs) and bs.as_fraction().denominator == 1 else None)
+            if kexp is not None and 0 <= kexp <= 8:
                 r = R(1)
-                for _ in range(bs.as_long()):
+                for _ in range(kexp):
                     r, a2 = num_pair(r, a)
                     r = r * a2
                 return r
@@ -494,7 +508,8 @@ class Interp:
         va = a.store.val if isinstance(a, NDArr) else a
         vb = b.store.val if isinstance(b, NDArr) else b
         val = self.pointwise(opname, va, vb)
-        return NDArr(Store(f'fresh@{getattr(node, "lineno", 0)}', val))
+        cls_ = DArr if isinstance(a, DArr) or isinstance(b, DArr) else NDArr
+        return cls_(Store(f'fresh@{getattr(node, "lineno", 0)}', val))
 
     def pointwise(self, opname, va, vb):
         if opname == 'neg':
@@ -502,6 +517,16 @@ class Interp:
         if va is None or vb is None or isinstance(va, Opaque) or isinstance(vb, Opaque):
             return None
         try:
+            if opname == 'Pow':
+                k = vb if isinstance(vb, int) else (int(vb) if isinstance(vb, float) and vb.is_integer() else None)
+                if k is None or abs(k) > 6:
+                    return None
+                va = R(va)
+                va = z3.ToReal(va) if z3.is_int(va) else va
+                r = z3.RealVal(1)
+                for _ in range(abs(k)):
+                    r = r * va
+                return r if k >= 0 else 1 / r
             va, vb = num_pair(va, vb)
             va = z3.ToReal(va) if z3.is_int(va) else va
             vb = z3.ToReal(vb) if z3.is_int(vb) else vb
@@ -625,8 +650,8 @@ class Interp:
             return z3.Or(*alts) if alts else False
         if isinstance(cont, str) and isinstance(x, str):
             return x in cont
-        if isinstance(cont, Obj) and 'keys' in cont.fields:
-            return self.contains(cont.fields['keys'], x)
+        if isinstance(cont, Obj) and isinstance(cont.fields.get('__items__'), dict) and not is_sym(x):
+            return x in cont.fields['__items__']
         return self.ctx.fresh_bool('in')
 
     def ev_Attribute(self, n, env):
@@ -679,6 +704,16 @@ class Interp:
             if full in prelude.CONSTS:
                 return prelude.CONSTS[full]
             return LibFn(f'{v.name}.{attr}')
+        if isinstance(v, DArr):
+            if attr in ('data', 'values', 'loc'):
+                return NDArr(v.store, view=v.view, dtype=v.dtype)
+            if attr == 'attrs':
+                return v.attrs
+            if attr in ('real', 'imag', 'T'):
+                return DArr(v.store, view=attr, dtype=v.dtype)
+            if attr in ('shape', 'size', 'ndim', 'dims', 'coords'):
+                return Opaque('dataarray.' + attr)
+            return LibFn('dataarray.' + attr, bound=v)
         if isinstance(v, NDArr):
             if attr in ('real', 'imag', 'T', 'flat'):
                 return NDArr(v.store, view=attr)
@@ -921,7 +956,12 @@ class Interp:
             ctx.event('call', name=f'opaque:{f.tag}', args=args, kwargs=kwargs, line=getattr(node, 'lineno', 0))
             return Opaque(f'{f.tag}()', [f])
         if isinstance(f, tuple) and f and f[0] == 'classattr':
-            raise Unsupported('class attribute call')
+            _, cref, attr = f
+            q = f'{cref.mod}.{cref.name}.{attr}'
+            if q in ctx.summaries:
+                ctx.event('call', name=q, args=args, kwargs=kwargs, line=getattr(node, 'lineno', 0))
+                return ctx.summaries[q](self, [cref] + list(args), kwargs, node)
+            raise Unsupported(f'class attribute call {q}')
         raise Unsupported(f'call of {f!r}')
 
     def call_closure(self, clo, args, kwargs, node=None):
